@@ -222,3 +222,107 @@ theorem moveWhileBorrowed_quiet {g : Graph} (hq : mwbQuiet g = true) : moveWhile
   simp only [h.g_eq, h.diags]
 
 end Pxv.CG
+
+namespace Pxv.CG
+open Graph
+
+/-! ### capture-free graphs: the hypotheses of the quiet theorems from the edges alone -/
+
+theorem capturedNode_captureFree {g : Graph} (h : captureFree g = true) (cap : List (Nat × List Nat)) (n : Nat) :
+    capturedNode g cap n = cap := by
+  have hn : (g.node n).tied = [] ∧ (g.node n).direct = [] := by
+    unfold captureFree at h
+    rw [List.all_eq_true] at h
+    unfold Graph.node
+    by_cases hlt : n < g.nodes.length
+    · have hm : g.nodes.getD n {} ∈ g.nodes := by
+        rw [List.getD_eq_getElem?_getD, List.getElem?_eq_getElem hlt]; exact List.getElem_mem hlt
+      have := h _ hm
+      simpa using this
+    · rw [List.getD_eq_getElem?_getD, List.getElem?_eq_none (by omega)]
+      exact ⟨rfl, rfl⟩
+  unfold capturedNode
+  simp only [hn.1, hn.2]
+  have : ∀ (deps : List Nat) (cur : List Nat), deps.foldl (fun cur d =>
+      let cur := if ([] : List Nat).contains d then union cur (lookup cap d) else cur
+      if ([] : List Nat).contains d then union cur [d] else cur) cur = cur := by
+    intro deps
+    induction deps with
+    | nil => intro cur; rfl
+    | cons d ds ih => intro cur; simp only [List.foldl_cons, List.contains_nil, Bool.false_eq_true, if_false]; exact ih cur
+  rw [this]
+  simp
+
+theorem captured_captureFree {g : Graph} (h : captureFree g = true) : captured g = [] := by
+  unfold captured
+  generalize (postOrder g).reverse = l
+  induction l with
+  | nil => rfl
+  | cons n ns ih => simp only [List.foldl_cons, capturedNode_captureFree h]; exact ih
+
+/-- the edge-level reading of C02's ownership clause on a graph without captures: no `&mut` edge, and no non-Copy value is
+    both taken by value and borrowed -/
+def inClassEdges (g : Graph) : Bool :=
+  g.edges.all (fun e => e.kind != .excl && (e.kind != .move || (g.node e.src).copy ||
+    g.edges.all (fun e' => !(e'.src == e.src && (e'.kind == .shared || e'.kind == .excl)))))
+
+theorem mwbQuiet_of_inClassEdges {g : Graph} (hcf : captureFree g = true) (h : inClassEdges g = true) : mwbQuiet g = true := by
+  unfold mwbQuiet
+  rw [captured_captureFree hcf]
+  unfold inClassEdges at h
+  rw [List.all_eq_true] at h ⊢
+  intro e he
+  have h1 := h e he
+  simp only [Bool.and_eq_true, Bool.or_eq_true] at h1 ⊢
+  refine ⟨h1.1, ?_⟩
+  rcases h1.2 with (h2 | h2) | h2
+  · exact Or.inl (Or.inl h2)
+  · exact Or.inl (Or.inr h2)
+  · right
+    rw [List.all_eq_true] at h2 ⊢
+    intro e' he'
+    have := h2 e' he'
+    simp only [lookup, List.find?_nil, List.contains_nil, Bool.not_false, Bool.and_true]
+    exact this
+
+end Pxv.CG
+
+namespace Pxv.CG
+open Graph
+
+theorem noConflict_of_inClassEdges {g : Graph} (hcf : captureFree g = true) (h : inClassEdges g = true) : noConflict g = true := by
+  unfold noConflict
+  rw [List.all_eq_true]
+  intro d _
+  rw [allBorrowers_of_captureFree hcf]
+  by_cases hc : g.consumers d = []
+  · simp [hc]
+  · -- some move edge leaves `d`
+    have : ∃ e ∈ g.edges, e.src = d ∧ e.kind = .move := by
+      unfold Graph.consumers Graph.outEdges at hc
+      cases hl : (List.filter (fun x => x.kind == EK.move) (List.filter (fun x => x.src == d) g.edges)) with
+      | nil => rw [hl] at hc; simp at hc
+      | cons e es =>
+        have he : e ∈ List.filter (fun x => x.kind == EK.move) (List.filter (fun x => x.src == d) g.edges) := by
+          rw [hl]; exact List.mem_cons_self ..
+        simp only [List.mem_filter, beq_iff_eq] at he
+        exact ⟨e, he.1.1, he.1.2, he.2⟩
+    obtain ⟨e, he, hsrc, hk⟩ := this
+    unfold inClassEdges at h
+    rw [List.all_eq_true] at h
+    have h1 := h e he
+    simp only [Bool.and_eq_true, Bool.or_eq_true, hk, bne_self_eq_false, Bool.false_eq_true, false_or] at h1
+    rcases h1.2 with h2 | h2
+    · rw [hsrc] at h2; simp [h2]
+    · have hb : g.borrowers d = [] := by
+        unfold Graph.borrowers Graph.outEdges
+        rw [List.map_eq_nil_iff, List.filter_eq_nil_iff]
+        intro e' he'
+        simp only [List.mem_filter, beq_iff_eq] at he'
+        rw [List.all_eq_true] at h2
+        have := h2 e' he'.1
+        simp only [he'.2, hsrc, beq_self_eq_true, Bool.true_and, Bool.not_eq_true'] at this
+        simp [this]
+      simp [hb]
+
+end Pxv.CG
